@@ -18,6 +18,12 @@ RECURSIVE SumSeq(_)
 SumSeq(s) == IF s = <<>> THEN 0 ELSE Head(s) + SumSeq(Tail(s))
 LineBytes(ln) == 9 + SumSeq([j \in 1..Len(ln.groups) |-> 1 + ln.groups[j]]) + 1
 BlockLen(n) == SumSeq([k \in 1..NLines(n) |-> LineBytes(LineAt(n, k - 1))])
+\* the same sum with the full lines counted at once (all full lines have the same
+\* layout); MC_TextIO checks BlockLen = BlockLenFast for every n of its sweep, the
+\* windows of very long blocks use this form
+BlockLenFast(n) == (n \div 60) * LineBytes(LineAt(60, 0)) + (IF n % 60 = 0 THEN 0 ELSE LineBytes(LineAt(n, n \div 60)))
+SumBound == 6000
+BlockLenOf(n) == IF n <= SumBound THEN BlockLen(n) ELSE BlockLenFast(n)
 
 \* calculus: seqio/origin.go toOriginLength / fromOriginLength
 ToLenC(n) ==
@@ -42,7 +48,7 @@ If(c, vs) == IF c THEN vs ELSE {}
 
 \* e: one observed length n
 JudgeOrigin(e) ==
-  If(e.blocklen # BlockLen(e.n), {"origin-blocklen"})
+  If(e.blocklen # BlockLenOf(e.n), {"origin-blocklen"})
   \cup If(e.full /\ e.lines # Lines(e.n), {"origin-layout"})
   \cup If(~e.full /\ (e.nlines # NLines(e.n) \/ e.lastline # (IF e.n = 0 THEN [idx |-> 0, groups |-> <<>>] ELSE LineAt(e.n, NLines(e.n) - 1))), {"origin-layout"})
   \cup If(\E j \in 1..Len(e.probes) : e.probes[j].line # LineAt(e.n, e.probes[j].k), {"origin-layout"})
